@@ -7,7 +7,7 @@ mod = importlib.import_module(sys.argv[1])
 import os
 for h in mod.HARNESSES:
     if len(sys.argv) > 2 and sys.argv[2] not in h.name: continue
-    repo = Repo(os.environ.get('VERIF_REPO', '/repo'), numpy_mode=getattr(h, 'numpy_mode', 'real'))
+    repo = Repo(os.environ.get('VERIF_REPO', '/repo'), numpy_mode=getattr(h, 'numpy_mode', 'real'), rs_model=getattr(h, 'rs_model', False))
     t0=time.time()
     obs, stats = verify(h, repo)
     print(h.name, stats, round(time.time()-t0,2))
